@@ -345,6 +345,18 @@ MOTIFS['M35b_run_succeeds_with_a_retrying_node_in_flight'] = spec([
     node(0), node(1, fails=FAIL), node(2, attempts=3, delay=5, fails=[[0, 1, 'E1'], [0, 2, 'E1']]),
     node(3, [('a', inp(1)), ('b', inp(2))]), node(4), node(5, [('a', one(3, 4))])])
 
+# a case node that is a node of the iteration DAG too (another node of the subgraph reads it): nothing orders it before its
+# switch there, so the switch must not wait for it (deadlock between 12d4978 and 4bfc65e when the order put the switch first)
+MOTIFS['M36_case_node_inside_iteration_dag'] = spec([
+    node(0), node(1, [('a', inp(0))], has_additional=True), node(2, [('a', inp(1))]), node(3), node(4, body=LAB),
+    node(5, [('a', sw(4, [('l0', 2), ('l1', 3)])), ('b', inp(2))], is_rec=True, recur_k=1),
+    node(6, [('a', rec(1, 5, 2))])])
+MOTIFS['M36b_case_node_inside_iteration_dag_decider_inside'] = spec([
+    node(0), node(1, [('a', inp(0))], has_additional=True), node(2, [('a', inp(1))]), node(3),
+    node(4, [('a', inp(1))], body=LAB),
+    node(5, [('a', sw(4, [('l0', 2), ('l1', 3)])), ('b', inp(2))], is_rec=True, recur_k=1),
+    node(6, [('a', rec(1, 5, 2))])])
+
 
 def _with_cb(sp, cb):
     sp = dict(sp)
